@@ -14,6 +14,7 @@ import (
 	"io/ioutil"
 	"log"
 	"math"
+	"math/big"
 	"os"
 	"sort"
 	"sync"
@@ -144,6 +145,19 @@ type overfetchListItem struct {
 	index        int
 }
 
+// mergeBudget is the number of extra bytes MergeRanges may request: floor(totalSize * overfetch).
+// It is computed exactly; in float32 the product can round up, which would let the
+// transfer exceed (1 + overfetch) * totalSize.
+func mergeBudget(totalSize int, overfetch float32) int {
+	if math.IsNaN(float64(overfetch)) || math.IsInf(float64(overfetch), 0) {
+		return int(float32(totalSize) * overfetch)
+	}
+	exact := new(big.Float).SetPrec(128).SetInt64(int64(totalSize))
+	exact.Mul(exact, big.NewFloat(float64(overfetch)))
+	budget, _ := exact.Int64()
+	return int(budget)
+}
+
 // MergeRanges takes a slice of SrcDstRanges, that:
 // * is non-contiguous, and is sorted by DstOffset
 // * an Overfetch parameter
@@ -191,7 +205,7 @@ func MergeRanges(ranges []srcDstRange, overfetch float32) (*list.List, uint64) {
 		}
 	}
 
-	overfetchBudget := int(float32(totalSize) * overfetch)
+	overfetchBudget := mergeBudget(totalSize, overfetch)
 
 	// sort by ascending distance to next range
 	sort.Slice(shortest, func(i, j int) bool {
